@@ -56,6 +56,10 @@ def run_trace(tid, events):
     if target > cur:
         hs.stepTimingAsync(target - cur)
     base = wpilib.RobotController.getFPGATime()
+    # the application may have installed its own clock for RobotController.getTime(); NotifierDelay works on FPGA time
+    if tid % 5 == 4:
+        off = 5000000 if tid % 2 else -(base // 2)
+        wpilib.RobotController.setTimeSource(lambda: wpilib.RobotController.getFPGATime() + off)
     n0 = hs.getNumNotifiers()
     s0 = next_slot()
     d = None
@@ -68,7 +72,8 @@ def run_trace(tid, events):
         k = ev["e"]
         try:
             if k == "new":
-                d = NotifierDelay(ev["p"] / 1e6)
+                # (whole seconds are written as ints)
+                d = NotifierDelay(ev["p"] // 1000000 if ev["p"] % 1000000 == 0 and ev["p"] > 0 else ev["p"] / 1e6)
                 if abs(d.delay_period - ev["p"]) > 1:
                     err = True
             elif k == "body":
@@ -106,6 +111,7 @@ def run_trace(tid, events):
             "err": err or blocked[0]}})
     if d is not None:
         d.free()
+    wpilib.RobotController.setTimeSource(wpilib.RobotController.getFPGATime)
     # the freed object of this history stays referenced for a while: it is dropped in the middle of the next one
     # (a freed NotifierDelay that is collected late must not touch a handle that now belongs to another one)
     PREV[0] = d
@@ -113,7 +119,9 @@ def run_trace(tid, events):
 
 
 def random_events(rng):
-    P = rng.choice([1000, 5000, 15625, 20000, 20000, 100000, 2300, 33333])
+    P = rng.choice([1000, 5000, 15625, 20000, 20000, 100000, 2300, 33333, 1000000, 1500000, 2000000, 1250000])
+    if int((P / 1e6) * 1e6) != P:
+        P = 20000        # (the period is passed in seconds: only values that survive the float round trip are used)
     evs = []
     if rng.random() < 0.05:
         evs.append({"e": "new", "p": rng.choice([0, 500, 999])})
